@@ -31,6 +31,7 @@ impl std::future::Future for YieldOnce {
             std::task::Poll::Ready(())
         } else {
             self.0 = true;
+            h3v::simquic::harness_yield();
             std::task::Poll::Pending
         }
     }
